@@ -101,7 +101,8 @@ def ensure_facts(config):
         lock.close()
 
 
-def _prune(keep=14):
+def _prune(keep=None):
+    keep = keep or int(os.environ.get("OXFACTS_CACHE_KEEP", "14"))
     gens = [os.path.join(CACHE, x) for x in os.listdir(CACHE) if not x.startswith(".")]
     gens = [g for g in gens if os.path.isdir(g)]
     gens.sort(key=lambda g: os.path.getmtime(g), reverse=True)
